@@ -62,6 +62,42 @@ pub fn visitor_contract<U: Tree>(window: usize) {
     kani::cover!(true, "reached");
 }
 
+/// build_trie(skip, ops) for ops that share their first `skip` bits == the specification's root of
+/// the sub-trie at that depth (this is how a terminal deep in the trie is rewritten).
+pub fn build_subtrie_equals_spec<Sub: Tree>(window: usize, prefix_bits: &[bool]) {
+    let skip = prefix_bits.len();
+    let prefix = bits_to_key(prefix_bits);
+    let mut p = Pairs {
+        n: 0,
+        keys: [[0; 32]; MAXK],
+        vals: [[0; 32]; MAXK],
+    };
+    Sub::fill(skip, &prefix, window, &mut p);
+    let want = Sub::root::<SymHasher>(&p.keys, &p.vals, &ALL);
+    let mut ops = [([0u8; 32], [0u8; 32]); MAXK];
+    let mut i = 0;
+    while i < p.n {
+        ops[i] = (p.keys[i], p.vals[i]);
+        i += 1;
+    }
+    let got = build_trie::<SymHasher>(skip, ops[..p.n].iter().cloned(), |_w: WriteNode| {});
+    assert!(got == want, "build_trie(skip) differs from the specification's sub-trie root");
+    kani::cover!(true, "reached");
+}
+
+#[kani::proof]
+pub fn c02_bt_skip1_s2d0() {
+    build_subtrie_equals_spec::<S2D0>(8, &[true])
+}
+#[kani::proof]
+pub fn c02_bt_skip3_s2d1() {
+    build_subtrie_equals_spec::<S2D1L>(8, &[false, true, true])
+}
+#[kani::proof]
+pub fn c02_bt_skip6_s1() {
+    build_subtrie_equals_spec::<S1>(8, &[true, false, true, false, true, true])
+}
+
 macro_rules! bt {
     ($name:ident, $t:ty, $w:expr) => {
         #[kani::proof]
